@@ -1,23 +1,43 @@
 #!/bin/sh
-# Re-runs every saved seeded change (/verif/seeded/*/patch.diff) against the check of the
-# property it breaks: applies the patch to /repo, runs `bin/check <ID> quick`, expects
-# exit 1 with a VIOLATION line, reverts. Prints one line per seed and a summary.
-# usage: tools/mutation_audit.sh [seed-dir-name ...]
+# Re-runs every saved seeded change (/verif/seeded/*/patch.diff) against the quick check of
+# the property it breaks. Nothing is applied to /repo: each job works in its own scratch
+# worktree of /repo's HEAD under /tmp (removed afterwards) with its own output directory, so
+# evidence of the real tree is never overwritten and jobs can run side by side.
+# Expects exit 1 with a VIOLATION line from every check. One line per seed and a summary.
+# usage: tools/mutation_audit.sh [-j N] [seed-dir-name ...]
 cd /verif || exit 2
-[ -z "$(git -C /repo status --porcelain)" ] || { echo "/repo is not clean"; exit 2; }
-trap 'git -C /repo checkout -- . 2>/dev/null' EXIT INT TERM
+J=1
+[ "$1" = "-j" ] && { J=$2; shift 2; }
 seeds=${*:-$(ls seeded)}
-ok=0; bad=0
-for s in $seeds; do
-	d=seeded/$s
-	[ -s $d/patch.diff ] || continue
+R=/tmp/audit.$$
+mkdir -p $R
+one() {
+	s=$1; d=/verif/seeded/$s; W=$R/w.$s; O=$R/o.$s
+	[ -s $d/patch.diff ] || return
 	id=$(python3 -c "import json;print(json.load(open('$d/meta.json'))['property'])")
-	if ! git -C /repo apply $PWD/$d/patch.diff 2>/dev/null; then echo "$s: patch no longer applies"; bad=$((bad+1)); continue; fi
-	bin/check $id quick > .build/audit.$$.out 2>&1; rc=$?
-	git -C /repo checkout -- .
-	nv=$(grep -ac '^VIOLATION' .build/audit.$$.out)
-	if [ $rc -eq 1 ] && [ $nv -gt 0 ]; then ok=$((ok+1)); echo "$s ($id): DETECTED ($nv violation signatures)"; else bad=$((bad+1)); echo "$s ($id): NOT DETECTED (exit $rc)"; tail -3 .build/audit.$$.out | cut -c1-200; fi
-	rm -f .build/audit.$$.out
+	git -C /repo worktree add -q --detach $W HEAD 2>/dev/null || { echo "$s ($id): cannot create worktree" > $R/r.$s; return; }
+	if git -C $W apply $d/patch.diff 2>/dev/null; then
+		mkdir -p $O
+		VERIF_REPO=$W VERIF_OUT=$O /verif/bin/check $id quick > $O/out 2>&1; rc=$?
+		nv=$(grep -ac '^VIOLATION' $O/out)
+		if [ $rc -eq 1 ] && [ $nv -gt 0 ]; then echo "$s ($id): DETECTED ($nv violation signatures)" > $R/r.$s
+		else { echo "$s ($id): NOT DETECTED (exit $rc)"; tail -3 $O/out | cut -c1-200; } > $R/r.$s; fi
+	else
+		echo "$s ($id): NOT DETECTED (patch no longer applies)" > $R/r.$s
+	fi
+	git -C /repo worktree remove --force $W 2>/dev/null
+	rm -rf $O
+}
+n=0
+for s in $seeds; do
+	one $s &
+	n=$((n+1))
+	[ $((n % J)) -eq 0 ] && wait
 done
+wait
+git -C /repo worktree prune
+cat $R/r.* 2>/dev/null
+ok=$(cat $R/r.* 2>/dev/null | grep -c ': DETECTED'); bad=$(cat $R/r.* 2>/dev/null | grep -c 'NOT DETECTED')
+rm -rf $R
 echo "mutation audit: $ok detected, $bad not detected"
-[ $bad -eq 0 ]
+[ "$bad" -eq 0 ]
